@@ -1352,18 +1352,14 @@ func c15Registered(p *Program, r *Report) {
 	}
 }
 
-func c15Routing(p *Program, r *Report) {
-	lc := lcOrFail(p, r)
-	if lc == nil {
-		return
-	}
+// mailboxLookup: the system method that maps a reference to a mailbox — the one comparing the reference's address with the
+// system's own (a helper extracted from its remote branch has the same signature).
+func (p *Program) mailboxLookup(lc *lifecycle) *ssa.Function {
 	var find *ssa.Function
 	mb := p.Named("", "Mailbox")
 	for _, fn := range p.methodsOf(lc.Sys) {
 		res := fn.Signature.Results()
 		if fn.Parent() == nil && res.Len() == 1 && mb != nil && types.Identical(res.At(0).Type(), mb) && fn.Signature.Params().Len() == 1 {
-			// the lookup proper is the one that compares the reference's address with the system's own (a helper extracted from
-			// its remote branch has the same signature)
 			has := false
 			for _, ifi := range ifsOf(fn) {
 				if f, ok := condFact(ifi.Cond, true); ok && f.Y != nil && anyContains(p.origins(f.X), "GetAddress") && anyContains(p.origins(f.Y), "GetAddress") {
@@ -1375,6 +1371,15 @@ func c15Routing(p *Program, r *Report) {
 			}
 		}
 	}
+	return find
+}
+
+func c15Routing(p *Program, r *Report) {
+	lc := lcOrFail(p, r)
+	if lc == nil {
+		return
+	}
+	find := p.mailboxLookup(lc)
 	if find == nil {
 		r.Unresolved("mailbox lookup")
 		return
